@@ -36,7 +36,7 @@ type recLogger struct {
 	Infos       int
 	Truncs      int // "Finished truncate" lines of the weight-triggered truncation loop
 	TruncStarts int
-	stopping    bool // the node's context has been cancelled: whatever its loops log now is shutdown noise
+	stopping    bool   // the node's context has been cancelled: whatever its loops log now is shutdown noise
 	onTruncated func() // called when the truncation loop reports a finished truncation (its lock is released by then)
 	keep        bool
 	Lines       []string
